@@ -241,6 +241,9 @@ def h_export(H, net, training):
     s1 = model.summary()
     model.__str__()                                   # (the text itself holds floats: not compared)
     model.get_total_icv()
+    n_nas = len(list(model.named_nas_parameters()))
+    n_net = len(list(model.named_net_parameters()))
+    H.ensure('[C18] observers:parameter-listings-partition-the-parameters', n_nas + n_net == len(list(model.parameters())) and n_nas == len(blocks))
     s2 = model.summary()
     H.ensure('[C18] observers:summary-lists-exactly-the-choice-blocks', sorted(s1.keys()) == sorted(b + '.sn_combiner' for b in blocks))
     H.ensure('[C18] observers:repeated-summaries-agree', _same(H, s1, s2))
@@ -264,7 +267,7 @@ HARNESSES = [
     dict(name='whole-supernet-import', bounded='enumerated architectures (contracts/whole_supernet.py NETS); coefficients, weights, statistics, inputs symbolic', fn='h_import', property=['C07'], functions=_FUNCS,
          quick=[dict(net=n, training=t) for n, t in (('one-block', True), ('twice', True), ('two-blocks', False))],
          thorough=[dict(net=n, training=t) for n in NETS for t in _B], timeout=120),
-    dict(name='whole-supernet-export', bounded='enumerated architectures (contracts/whole_supernet.py NETS); coefficients, weights, statistics, inputs symbolic', fn='h_export', property=['C03', 'C18'], functions=_FUNCS + [_P + 'supernet.py::SuperNet.summary', _P + 'supernet.py::SuperNet.__str__', _P + 'supernet.py::SuperNet.get_total_icv', _P + 'nn/combiner.py::SuperNetCombiner.summary'],
+    dict(name='whole-supernet-export', bounded='enumerated architectures (contracts/whole_supernet.py NETS); coefficients, weights, statistics, inputs symbolic', fn='h_export', property=['C03', 'C18'], functions=_FUNCS + [_P + 'supernet.py::SuperNet.summary', _P + 'supernet.py::SuperNet.__str__', _P + 'supernet.py::SuperNet.get_total_icv', _P + 'supernet.py::SuperNet.named_nas_parameters', _P + 'supernet.py::SuperNet.named_net_parameters', _P + 'nn/combiner.py::SuperNetCombiner.summary'],
          quick=[dict(net=n, training=t) for n, t in (('one-block', True), ('twice', True), ('two-blocks', False), ('one-block', False), ('user-blocks', False))],
          thorough=[dict(net=n, training=t) for n in NETS for t in _B], timeout=120),
 ]
